@@ -82,7 +82,7 @@ ProcMsgs(cfg, N, S, X, pos, obs, sem, rs, p0) ==
   ELSE LET m == MsgScan(X, pos) IN
        IF m.kind \in {"partial", "free"} \/ m.len - pos + 1 > N THEN {Freed(CHOOSE st \in S : TRUE)}
        ELSE LET dl == DeadlineFrom(obs, rs, m.len, p0)
-                after == UNION {MsgFrom(cfg, [st EXCEPT !.room = N], <<>>, m.units, 1, sem, m.emb, "proc") : st \in S}
+                after == UNION {MsgFrom(cfg, [st EXCEPT !.room = N, !.dl = dl], <<>>, m.units, 1, sem, m.emb, "proc") : st \in S}
                 \* C10: everything this message caused precedes the next read
                 timely == {st \in after : st.free \/ dl = 0 \/ LastIx(sem, st) < dl}
                 cut == Last(obs).e = "end" /\ Last(obs).res = "injected" /\ dl = 0
